@@ -36,7 +36,7 @@ def inmem_cases(ctx):
             mk = np.array([rng.random() < 0.5 for _ in range(n)])
             out.append(("las[mask]", las[mk]))
         elif kind == "list":
-            ix = [rng.randrange(n) for _ in range(rng.randrange(0, 6))]
+            ix = [rng.randrange(n) for _ in range(rng.choice([0, 0, 1, 2, 5]))]
             out.append((f"las[{ix}]", las[np.array(ix, dtype=np.int64)]))
         elif kind == "int":
             continue
@@ -116,10 +116,14 @@ def correspond(ctx):
     _INMEM = inmem_cases(ctx)
     cmds = []
     for label, las in _INMEM:
-        h = las.header
+        h = las.header if type(las).__name__ == "LasData" else las.point_format and __import__("laspy").LasHeader(point_format=las.point_format.id, version="1.4")
         d = {f"{nm}[{i}]": lasio.f64bits(getattr(h, nm)[i]) for nm in ("scales", "offsets") for i in range(3)}
-        cmds.append(f"stats_of {h.point_format.id} {h.point_format.size} {lasio.assoc_tok(d)} {common.hexb(lasio.rec_bytes(las.points))}")
+        recs = las.points if type(las).__name__ == "LasData" else las
+        cmds.append(f"stats_of {h.point_format.id} {h.point_format.size} {lasio.assoc_tok(d)} {common.hexb(lasio.rec_bytes(recs))}")
     for (label, las), mo in zip(_INMEM, common.run_model(cmds)):
+        if type(las).__name__ != "LasData":
+            dis.append({"kind": "indexing a LasData did not return a LasData", "input": {"op": label}, "model": "LasData", "impl": type(las).__name__})
+            continue
         h = las.header
         t = mo.split(" ")
         ctx.traces += 1
@@ -160,6 +164,9 @@ def search(ctx, seeds):
         if probs:
             add("appended file: " + probs[0].split(" ")[0], a["desc"], "; ".join(probs[:3]))
     for label, las in (_INMEM if _INMEM is not None else inmem_cases(ctx)):
+        if type(las).__name__ != "LasData":
+            add("indexing a LasData did not return a LasData", {"op": label}, f"{label} returned a {type(las).__name__}: there is no header kept in sync with the selected points")
+            continue
         probs = header_stats_problems(las.header, las.points)
         if probs:
             add("in-memory header after " + label.split("[")[0] + ": " + probs[0].split(" ")[0], {"op": label, "points": len(las.points), "version": str(las.header.version), "format": las.header.point_format.id}, "; ".join(probs[:3]))
